@@ -52,6 +52,8 @@ pub enum FaultKind {
     /// the positive indication (<data>…</data>, <ok/>) FOLLOWED by an rpc-error of severity error
     /// in the same reply: a server that fails while streaming its output
     PositiveThenRpcError,
+    /// the complete positive reply, but the stream ends where its delimiter should begin
+    NoDelimiterThenClose,
 }
 
 impl FaultKind {
@@ -77,6 +79,7 @@ impl FaultKind {
             FaultKind::NotUtf8InComment => "positive-but-not-utf8(comment)",
             FaultKind::NotUtf8InWarningText => "positive-but-not-utf8(warning-text)",
             FaultKind::PositiveThenRpcError => "positive-indication-then-rpc-error",
+            FaultKind::NoDelimiterThenClose => "reply-without-delimiter-then-close",
         }
     }
     /// does this fault mean "the step failed" (as opposed to a benign variation)?
@@ -88,7 +91,7 @@ impl FaultKind {
             FaultKind::RpcError, FaultKind::WarningThenOk, FaultKind::NoPositive, FaultKind::NotXml, FaultKind::Truncated,
             FaultKind::WrongMessageId, FaultKind::CloseBefore, FaultKind::CloseAfter, FaultKind::StallThenClose,
             FaultKind::DelayedRpcError, FaultKind::ErrorThenOk, FaultKind::ErrorWarningThenOk, FaultKind::ForeignError, FaultKind::HoldOk, FaultKind::ErrorReplyThenSecondPositiveReply, FaultKind::ErrorRootThenPositiveRootSameId, FaultKind::ErrorRootThenPositiveRootOtherId,
-            FaultKind::NotUtf8InComment, FaultKind::NotUtf8InWarningText, FaultKind::PositiveThenRpcError,
+            FaultKind::NotUtf8InComment, FaultKind::NotUtf8InWarningText, FaultKind::PositiveThenRpcError, FaultKind::NoDelimiterThenClose,
         ]
         .into_iter()
         .find(|f| f.name() == s)
@@ -426,6 +429,12 @@ async fn serve(mut s: tokio_rustls::server::TlsStream<tokio::net::TcpStream>, se
                         let mut b = reply(&idv, &format!("<load-configuration-results>{RPC_ERROR}<load-error-count>1</load-error-count></load-configuration-results>"));
                         b.extend(reply(&idv, &ok_body));
                         Some(b)
+                    }
+                    FaultKind::NoDelimiterThenClose => {
+                        let r = reply(&idv, &ok_body);
+                        let cut = r.windows(MARKER.len()).rposition(|w| w == MARKER.as_bytes()).unwrap_or(r.len());
+                        close_after = true;
+                        Some(r[..cut].to_vec())
                     }
                     FaultKind::PositiveThenRpcError => Some(if op == "load-configuration" {
                         reply(&idv, &format!("<load-configuration-results><ok/>{RPC_ERROR}</load-configuration-results>"))
